@@ -5,7 +5,7 @@ V = os.path.dirname(os.path.dirname(os.path.abspath(__file__)))
 sys.path.insert(0, V)
 ids = ["C%02d" % i for i in range(1, 21)]
 # thorough tiers that were run to completion on the unchanged tree; the others register the quick tier only (thorough_cmd is optional)
-THOROUGH_OK = {"C02", "C03", "C05", "C08", "C07", "C09", "C10", "C11", "C12", "C13", "C14", "C15", "C16", "C17", "C18", "C20"}
+THOROUGH_OK = {"C02", "C03", "C05", "C06", "C08", "C07", "C09", "C10", "C11", "C12", "C13", "C14", "C15", "C16", "C17", "C18", "C20"}
 checks, na, served = [], [], []
 for i in ids:
     if not os.path.exists(os.path.join(V, "props", i + ".py")):
